@@ -14,8 +14,8 @@ from pathlib import Path
 
 from vf import env
 
-EVIDENCE_DIR = env.VERIF / "evidence"
-REPLAY_DIR = env.VERIF / "replays"
+EVIDENCE_DIR = Path(os.environ.get("VERIF_EVIDENCE_DIR") or env.VERIF / "evidence")
+REPLAY_DIR = Path(os.environ.get("VERIF_REPLAY_DIR") or env.VERIF / "replays")
 FINDINGS = env.VERIF / "known_findings.json"
 
 
@@ -115,6 +115,10 @@ def run_property(prop, tier, seed, replay_file=None):
     unmet = []
     if not replay_file:
         unmet = list(mod.gates(counters, tier)) if hasattr(mod, "gates") else []
+        if not samples:
+            unmet.append("no sample case recorded")
+        if len(fps) < 2:
+            unmet.append("fewer than 2 distinct non-trivial cases")
 
     # ---- known findings ----------------------------------------------------
     findings = load_findings(prop)
@@ -176,7 +180,7 @@ def run_property(prop, tier, seed, replay_file=None):
             "verdict": "violated" if n_new else ("inconclusive" if (problems or unmet) else "held-on-observed"),
             "repo": str(env.REPO),
         }
-        EVIDENCE_DIR.mkdir(exist_ok=True)
+        EVIDENCE_DIR.mkdir(parents=True, exist_ok=True)
         (EVIDENCE_DIR / f"{prop}.json").write_text(json.dumps(ev, indent=1, default=str))
 
     # ---- report ------------------------------------------------------------
